@@ -499,3 +499,658 @@ def cases(tier, seed):
   for i, c in enumerate(out):
     c["idx"], c["seed"] = i, seed
   return out
+
+
+# ============================================================================= TF side
+_VARIANTS = {}
+
+
+def setup(ctx):
+  seen, expected = hpstub.selftest()
+  if set(seen) != expected or len(seen) != len(expected):
+    raise RuntimeError("hp stub self-test failed: %r" % (seen,))
+  ctx.count("stub.selftest")
+  # online monitor on every delta() call, whoever makes it (build(), print_stats(), the grid below)
+  import importlib
+  import sys
+  importlib.import_module("qkeras.autoqkeras.forgiving_metrics")
+  ffm = sys.modules["qkeras.autoqkeras.forgiving_metrics.forgiving_factor"]   # the package re-binds the name to a dict
+  import numpy as np
+  orig = ffm.ForgivingFactor.delta
+
+  def monitored(self):
+    r = orig(self)
+    try:
+      ref, t = self.reference_size, self.trial_size
+      if np.ndim(ref) == 0 and np.ndim(t) == 0 and ref > 0 and t > 0 and \
+          float(self.delta_p) > 0 and float(self.delta_n) > 0 and float(self.rate) > 1:
+        ctx.count("delta.online_calls")
+        rv = float(r)
+        bad = (t == ref and rv != 0.0) or (t < ref and not rv > 0) or (t > ref and not rv < 0)
+        if bad:
+          ctx.violation({"part": "delta", "kind": "delta_contract", "which": "sign_or_zero", "route": "online"},
+                        "delta(reference=%r, trial=%r) = %r" % (ref, t, rv),
+                        {"delta_p": float(self.delta_p), "delta_n": float(self.delta_n), "rate": float(self.rate)})
+    except Exception:  # pylint: disable=broad-except
+      ctx.count("delta.online_monitor_errors")
+    return r
+
+  ffm.ForgivingFactor.delta = monitored
+  ctx.state["delta_orig"] = orig
+
+
+def build_reference(spec):
+  import tensorflow as tf
+  KL = tf.keras.layers
+  inp = KL.Input(tuple(spec["input"]), name="inp")
+  tensors = {"inp": inp}
+  prev = inp
+  for ls in spec["layers"]:
+    kw = {k: v for k, v in ls.items() if k not in ("cls", "name", "inputs")}
+    layer = getattr(KL, ls["cls"])(name=ls["name"], **kw)
+    ins = [tensors[n] for n in ls["inputs"]] if "inputs" in ls else prev
+    if isinstance(ins, list) and len(ins) == 1:
+      ins = ins[0]
+    prev = layer(ins)
+    tensors[ls["name"]] = prev
+  m = tf.keras.Model(inp, prev)
+  m.compile(optimizer="adam", loss="mse", metrics=["acc"])
+  return m
+
+
+def _js(o):
+  return json.dumps(o, sort_keys=True, default=str)
+
+
+def qsig(o):
+  """Identity of whatever sits in a quantizer / activation slot."""
+  import types
+  if o is None:
+    return ("none",)
+  if isinstance(o, str):
+    return ("str", o)
+  if not isinstance(o, types.FunctionType) and hasattr(o, "get_config") and \
+      type(o).__module__.split(".")[0] == "qkeras":
+    try:
+      return (type(o).__name__, _js(o.get_config()))
+    except Exception:  # pylint: disable=broad-except
+      return (type(o).__name__, str(o))
+  return ("fn", getattr(o, "__name__", type(o).__name__))
+
+
+def variants(s):
+  """Signatures a configuration string may legitimately take inside a Q layer."""
+  if s not in _VARIANTS:
+    from qkeras import quantizers as Q
+    a = Q.get_quantizer(s)
+    b = Q.get_quantizer(s)
+    if hasattr(b, "_set_trainable_parameter"):
+      b._set_trainable_parameter()
+    _VARIANTS[s] = (qsig(a), qsig(b))
+  return _VARIANTS[s]
+
+
+def is_quantizer(o):
+  return qsig(o)[0] not in ("none", "str", "fn")
+
+
+def actual_roles(tl):
+  c = type(tl).__name__
+  if c in ("QDense", "QConv1D", "QConv2D", "QDepthwiseConv2D"):
+    qs = tl.get_quantizers()
+    return {"kernel": qs[0], "bias": qs[1], "activation": tl.activation}
+  if c == "QSeparableConv2D":
+    qs = tl.get_quantizers()
+    return {"kernel": qs[0], "pointwise": qs[1], "bias": qs[2], "activation": tl.activation}
+  if c in ("QSimpleRNN", "QLSTM"):
+    qs = tl.get_quantizers()
+    return {"kernel": qs[0], "recurrent": qs[1], "bias": qs[2], "activation": tl.activation,
+            "recurrent_activation": getattr(tl, "recurrent_activation", None)}
+  if c == "QActivation":
+    return {"activation": tl.quantizer, "linear": tl.quantizer}
+  return None
+
+
+def inbound_names(layer):
+  import tensorflow as tf
+  nodes = getattr(layer, "_inbound_nodes", [])
+  if not nodes:
+    return []
+  return [l.name for l in tf.nest.flatten(nodes[0].inbound_layers)]
+
+
+STRUCT_KEYS = ("kernel_size", "strides", "padding", "use_bias", "depth_multiplier", "return_sequences",
+               "dilation_rate", "data_format", "groups", "pool_size", "axis", "go_backwards", "unroll")
+
+
+def act_name(a):
+  if a is None:
+    return None
+  if isinstance(a, str):
+    return a
+  return getattr(a, "__name__", type(a).__name__)
+
+
+def find_decision(stub, names):
+  by = {d.name: d for d in stub.decisions()}
+  for n in names:
+    if n in by:
+      return by[n]
+  return None
+
+
+def why_outside(role_plan, actual):
+  lim = role_plan["limit"]
+  if not is_quantizer(actual):
+    return "unquantized"
+  if isinstance(lim, list):
+    return "not_in_allow_list"
+  b = getattr(actual, "bits", None)
+  if b is not None and b > lim:
+    return "over_limit"
+  return "not_in_config"
+
+
+def check_offered(ctx, scn, P, stub):
+  done = set()
+  planned = set()
+  for p in P:
+    for role, r in p["roles"].items():
+      d = find_decision(stub, r["names"])
+      planned.update(r["names"])
+      if d is None:
+        continue
+      key = (d.name, role, p["cls"])
+      if key in done:
+        continue
+      done.add(key)
+      ctx.count("hp.offered_checked", len(d.values))
+      ctx.evals(len(d.values))
+      for v in d.values:
+        if v not in r["allowed"]:
+          lim = r["limit"]
+          if isinstance(lim, list):
+            why = "not_in_allow_list"
+          elif v in r["bits"]:
+            why = "over_limit"
+          else:
+            allb = {}
+            for dct in cfg_of(scn).values():
+              allb.update(dct)
+            why = "over_limit" if (v in allb and allb[v] > lim) else "not_in_config"
+          ctx.violation({"part": "hp", "kind": "offered_value_outside_allowed_set", "role": role, "cls": p["cls"],
+                         "grouped": p["grouped"], "why": why},
+                        "decision %s offers %r for the %s of %s (limit %r, admissible %r)" % (
+                            d.name, v, role, p["name"], lim, r["allowed"]),
+                        {"decision": d.as_json(), "limit": scn["limit"], "layer": p["name"]})
+      if set(d.values) != set(r["allowed_strict"]):
+        ctx.observe("offered_set_differs_from_admissible_set_of_role_config",
+                    {"decision": d.name, "offered": list(d.values), "admissible": r["allowed_strict"], "role": role})
+  for d in stub.decisions():
+    if d.name not in planned and not d.name.startswith("network_filters"):
+      ctx.observe("decision_asked_for_a_role_the_plan_leaves_alone", {"decision": d.name})
+  for a in stub.anomalies:
+    ctx.observe("stub_anomaly", a)
+
+
+def indep_sizes(layer, ffp):
+  """(parameters, activations) of the documented size model for in-scope layers, else None."""
+  import numpy as np
+  c = type(layer).__name__
+  rb, ob = ffp["ref_bits"], ffp["ref_bits"]
+  out_n = int(np.prod([int(x) for x in layer.output.shape[1:]]))
+  if c in ("Dense", "Conv1D", "Conv2D", "DepthwiseConv2D"):
+    par = sum(int(np.prod(w.shape)) * rb for w in layer.weights)
+    an = act_name(layer.activation)
+    return par, (0 if an in (None, "linear") else rb * out_n)
+  if c in ("QDense", "QConv1D", "QConv2D", "QDepthwiseConv2D"):
+    qs = layer.get_quantizers()
+    par = 0
+    for i, w in enumerate(layer.weights):
+      q = qs[i] if i < len(qs) else None
+      par += int(np.prod(w.shape)) * (q.bits if q is not None else rb)
+    a = layer.activation
+    an = act_name(a)
+    if a is None or an == "linear":
+      bits = 0
+    elif an == "softmax":
+      bits = ob
+    elif hasattr(a, "bits"):
+      bits = a.bits
+    else:
+      bits = rb
+    return par, bits * out_n
+  if c == "Activation":
+    an = act_name(layer.activation)
+    bits = 0 if an == "linear" else (ob if an in ("softmax", "sigmoid") else rb)
+    return 0, bits * out_n
+  if c == "QActivation":
+    q = layer.quantizer
+    return 0, (q.bits if hasattr(q, "bits") else rb) * out_n
+  return None
+
+
+def check_sizes(ctx, ff, ffp, model, tag):
+  ok, res = ctx.call({"part": "size", "stage": "compute_model_size", "model": tag}, ff.compute_model_size, model)
+  if not ok:
+    return None
+  total, p_size, a_size, per = res
+  sc = ffp["size_config"]
+  tsum = 0
+  for layer in model.layers:
+    c = type(layer).__name__
+    lc = sc.get(c, sc.get("default"))
+    if not lc:
+      continue
+    got = per.get(layer.name)
+    if got is None:
+      ctx.violation({"part": "size", "kind": "size_model_differs", "what": "layer_missing", "cls": c},
+                    "layer %s has a size configuration but no entry" % layer.name, None)
+      continue
+    tsum += got["total"]
+    exp = indep_sizes(layer, ffp)
+    if exp is None:
+      continue
+    ctx.count("hp.size_layers_checked")
+    ctx.evals(3)
+    for what, e, g in (("parameters", exp[0], got["parameters"]), ("activations", exp[1], got["activations"])):
+      if int(g) != int(e):
+        ctx.violation({"part": "size", "kind": "size_model_differs", "what": what, "cls": c},
+                      "%s of %s (%s): size model %r, elements x bits = %r" % (what, layer.name, c, g, e),
+                      {"layer": layer.name, "quantizers": [str(q) for q in layer.get_quantizers()] if hasattr(layer, "get_quantizers") else None,
+                       "activation": str(getattr(layer, "activation", None)), "ff": ffp})
+    et = ("parameters" in lc) * exp[0] + ("activations" in lc) * exp[1]
+    if int(got["total"]) != int(et):
+      ctx.violation({"part": "size", "kind": "size_model_differs", "what": "total", "cls": c},
+                    "total of %s: %r, expected %r under %r" % (layer.name, got["total"], et, lc), None)
+  if int(total) != int(tsum):
+    ctx.violation({"part": "size", "kind": "size_model_differs", "what": "model_total", "cls": "model"},
+                  "model total %r != sum of layer totals %r" % (total, tsum), None)
+  return total
+
+
+def check_leaf(ctx, scn, P, ref, stub, trial, ff):
+  import numpy as np
+  answers = stub.answers()
+  sid_model = scn["sid"].split("#")[0]
+  # ---- architecture: names, order, classes, connectivity
+  ctx.count("hp.architecture_checked")
+  rn = [l.name for l in ref.layers]
+  tn = [l.name for l in trial.layers]
+  if rn != tn:
+    ctx.violation({"part": "hp", "kind": "architecture_differs", "what": "layer_names_or_order"},
+                  "reference %r, trial %r" % (rn, tn), {"answers": answers})
+    return
+  ctx.evals(len(rn))
+  group_seen = {}
+  for p, rl, tl in zip(P, ref.layers, trial.layers):
+    rc, tc = type(rl).__name__, type(tl).__name__
+    if inbound_names(rl) != inbound_names(tl):
+      ctx.violation({"part": "hp", "kind": "architecture_differs", "what": "connectivity", "cls": rc},
+                    "%s: inputs %r in the reference, %r in the trial" % (p["name"], inbound_names(rl), inbound_names(tl)), None)
+    rcfg, tcfg = rl.get_config(), tl.get_config()
+    if not p["quantize"]:
+      # ---- layers outside limits / layer_indexes, softmax, other classes: untouched
+      ctx.count("hp.excluded_checked")
+      ctx.evals(1)
+      if rc == "BatchNormalization" and p["marked"] and tc == "QBatchNormalization":
+        ctx.observe("marked_batchnorm_becomes_QBatchNormalization")
+        continue
+      if tc != rc or _js(tcfg) != _js(rcfg):
+        reason = ("not_in_layer_indexes" if (not p["selected"] and p["cls"] in WEIGHT + ("Activation",)) else
+                  ("softmax" if act_name(getattr(rl, "activation", None)) == "softmax" and rc == "Activation" else
+                   ("no_limit_entry" if p["key"] is None else "class_without_roles")))
+        diff = sorted(k for k in set(rcfg) | set(tcfg) if _js(rcfg.get(k)) != _js(tcfg.get(k)))
+        ctx.violation({"part": "hp", "kind": "excluded_layer_changed", "cls": rc, "reason": reason},
+                      "%s (%s) must stay as in the reference; trial has %s, config keys differing: %r" % (
+                          p["name"], rc, tc, diff[:6]),
+                      {"answers": answers, "layer_indexes": scn["layer_indexes"], "limit": scn["limit"]})
+      continue
+    # ---- layers to be quantized
+    if tc != "Q" + rc:
+      kind = "layer_left_unquantized" if tc == rc else "architecture_differs"
+      sig = {"part": "hp", "kind": kind, "cls": rc}
+      if kind == "architecture_differs":
+        sig["what"] = "class"
+      ctx.violation(sig, "%s: %s in the reference, %s in the trial although the tuner answered %r" % (
+          p["name"], rc, tc, {k: v for k, v in answers.items() if k.startswith(p["name"] + "_")}),
+                    {"answers": answers, "limit": scn["limit"]})
+      continue
+    for k in STRUCT_KEYS:
+      if k in rcfg and k in tcfg and _js(rcfg[k]) != _js(tcfg[k]):
+        ctx.violation({"part": "hp", "kind": "architecture_differs", "what": "structural_option", "cls": rc},
+                      "%s.%s: %r -> %r" % (p["name"], k, rcfg[k], tcfg[k]), None)
+    # units / filters
+    for k in ("units", "filters"):
+      if k in rcfg and rcfg[k] is not None:
+        f = 1.0
+        if p["tunable"]:
+          dn = "network_filters" if scn["tune"] == "block" else "network_filters_" + p["name"]
+          if dn in answers:
+            f = answers[dn]
+          else:
+            ctx.observe("tunable_layer_without_filter_decision", {"layer": p["name"], "tune": scn["tune"]})
+        want = max(int(rcfg[k] * f), 1)
+        if f != 1.0:
+          ctx.count("hp.scaled_units_checked")
+        if tcfg.get(k) != want:
+          ctx.violation({"part": "hp", "kind": "architecture_differs", "what": "units_or_filters", "cls": rc,
+                         "tunable": p["tunable"]},
+                        "%s.%s: reference %r, factor %r -> expected %r, trial has %r" % (
+                            p["name"], k, rcfg[k], f, want, tcfg.get(k)), {"answers": answers})
+    act = actual_roles(tl)
+    spec = p["spec"]
+    for role, r in p["roles"].items():
+      a = act.get(role)
+      place = "inline" if (role in ("activation", "recurrent_activation") and rc != "Activation") else "layer"
+      base = {"part": "hp", "role": role, "cls": rc, "grouped": p["grouped"], "place": place}
+      ctx.count("hp.membership_checked")
+      ctx.evals(1)
+      sa = qsig(a)
+      if not any(sa in variants(k) for k in r["allowed"]):
+        ctx.violation(dict(base, kind="quantizer_outside_allowed_set", why=why_outside(r, a)),
+                      "%s of %s is %s; admissible under limit %r: %r" % (role, p["name"], str(a), r["limit"], r["allowed"]),
+                      {"answers": answers, "limit": scn["limit"], "cfg": scn["cfg"], "activation_bits": scn["activation_bits"]})
+      elif not any(sa in variants(k) for k in r["allowed_strict"]):
+        ctx.observe("%s_quantizer_drawn_from_the_kernel_configuration" % role, {"layer": p["name"], "got": str(a)})
+      d = find_decision(stub, r["names"])
+      if d is None:
+        ctx.count("hp.honour_unmapped")
+      else:
+        ctx.count("hp.honour_checked")
+        ctx.evals(1)
+        if sa not in variants(d.value):
+          ctx.violation(dict(base, kind="choice_not_honoured"),
+                        "tuner answered %r for %s but the %s of %s is %s" % (d.value, d.name, role, p["name"], str(a)),
+                        {"answers": answers, "limit": scn["limit"]})
+      if p["grouped"]:
+        group_seen.setdefault((p["key"], role, place), []).append((p["name"], sa, str(a)))
+    # roles the plan leaves alone on a quantized layer: linear / softmax inline activations stay
+    if rc != "Activation" and "activation" not in p["roles"] and "activation" in act:
+      ctx.count("hp.excluded_checked")
+      if act_name(act["activation"]) != act_name(rl.activation):
+        ctx.violation({"part": "hp", "kind": "excluded_layer_changed", "cls": rc, "reason": "linear_or_softmax_inline"},
+                      "%s: inline activation %s became %s" % (p["name"], act_name(rl.activation), str(act["activation"])), None)
+  # ---- one decision per pattern and role
+  for (key, role, place), members in group_seen.items():
+    if len(members) < 2:
+      continue
+    ctx.count("hp.group_checked")
+    ctx.evals(len(members))
+    if len({m[1] for m in members}) > 1:
+      ctx.violation({"part": "hp", "kind": "group_not_shared", "role": role, "place": place},
+                    "layers matched by %r carry different %s quantizers: %r" % (key, role, [(m[0], m[2]) for m in members]),
+                    {"answers": answers, "limit": scn["limit"]})
+  names_per_group = {}
+  for p in P:
+    if p["grouped"] and p["quantize"]:
+      for role, r in p["roles"].items():
+        d = find_decision(stub, r["names"])
+        if d is not None:
+          names_per_group.setdefault((p["key"], role), set()).add(d.name)
+  for (key, role), ns in names_per_group.items():
+    if len(ns) > 1:
+      ctx.violation({"part": "hp", "kind": "group_not_shared", "role": role, "place": "decision_names"},
+                    "pattern %r, role %s decided by several tuner parameters: %r" % (key, role, sorted(ns)), None)
+
+
+def make_ff(scn):
+  from qkeras.autoqkeras.forgiving_metrics import forgiving_factor
+  f = scn["ff"]
+  return forgiving_factor["bits"](delta_p=f["delta_p"], delta_n=f["delta_n"], rate=f["rate"], stress=1.0,
+                                  input_bits=f["input_bits"], output_bits=f["ref_bits"], ref_bits=f["ref_bits"],
+                                  config=copy.deepcopy(f["size_config"]))
+
+
+def expected_delta(dp, dn, rate, ref, t):
+  if t == ref:
+    return 0.0
+  return (dp if t < ref else dn) / 100.0 * math.log(float(ref) / float(t)) / math.log(rate)
+
+
+def run_hp(case, ctx):
+  import zlib
+  import numpy as np
+  import tensorflow as tf
+  from qkeras.autoqkeras.autoqkeras_internal import AutoQKHyperModel
+  scn = case["scn"]
+  shard, nshards = case["shard"], case["nshards"]
+  P = plan(scn)
+  ref = build_reference(scn["model"])
+  ffp = scn["ff"]
+  ff = make_ff(scn)
+  cfg_kind = "library_default" if scn["cfg"] == "library_default" else "small"
+  base = {"part": "hp", "stage": "quantize_model", "tune": scn["tune"], "cfg": cfg_kind}
+  ref_cfg_before = _js(ref.get_config())
+
+  def construct():
+    kw = dict(target=ff, limit=copy.deepcopy(scn["limit"]), tune_filters=scn["tune"],
+              layer_indexes=copy.deepcopy(scn["layer_indexes"]), activation_bits=scn["activation_bits"],
+              quantization_config=None if cfg_kind == "library_default" else copy.deepcopy(scn["cfg"]))
+    if scn["exc"] is not None:
+      kw["tune_filters_exceptions"] = scn["exc"]
+    return AutoQKHyperModel(ref, ["acc"], **kw)
+
+  state = {"early_abort": False}
+
+  def leaf(stub, build=False):
+    ok, hm = ctx.call({"part": "hp", "stage": "construct", "exceptions_arg": "default" if scn["exc"] is None else "given"},
+                      construct)
+    if not ok:
+      state["early_abort"] = True
+      return None
+    sig = dict(base)
+    if build:
+      sig["stage"] = "build"
+
+    def go():
+      try:
+        if build:
+          return hm.build(stub), hm
+        return hm.quantize_model(stub)[0], hm
+      except Exception:
+        sig["scaled"] = any(d.name.startswith("network_filters") and d.value != 1.0 for d in stub.decisions())
+        raise
+
+    ok, res = ctx.call(sig, go)
+    ctx.count("hp.leaves")
+    check_offered(ctx, scn, P, stub)
+    if not ok:
+      where = ctx.repo_frame(res.__traceback__) or ""
+      if where.startswith("qkeras/autoqkeras/"):
+        state["early_abort"] = True       # raised while still asking the tuner: the decision list is incomplete
+      ctx.count("hp.leaves_raised")
+      return None
+    trial, hm = res
+    ctx.count("hp.leaves_built")
+    if any(len(d.values) > 1 for d in stub.branch_points()):
+      ctx.nontrivial(scn["sid"], case["seed"], tuple(sorted((k, str(v)) for k, v in stub.answers().items())))
+    check_leaf(ctx, scn, P, ref, stub, trial, ff)
+    check_sizes(ctx, ff, ffp, trial, "trial")
+    return trial, hm
+
+  # ---- the reference itself: size model, zero bonus for equal sizes
+  if shard == 0:
+    rt = check_sizes(ctx, ff, ffp, ref, "reference")
+    ok, r1 = ctx.call({"part": "size", "stage": "get_reference"}, ff.get_reference, ref)
+    ok2, r2 = ctx.call({"part": "size", "stage": "get_trial"}, ff.get_trial, ref)
+    if ok and ok2 and rt is not None:
+      ctx.count("delta.model_zero_checked")
+      d = float(ff.delta())
+      if r1 != rt or r2 != rt or d != 0.0:
+        ctx.violation({"part": "delta", "kind": "delta_contract", "which": "zero_for_the_reference_model", "route": "bits"},
+                      "reference %r, trial(reference model) %r, total %r, delta %r" % (r1, r2, rt, d), None)
+
+  exhaustive = scn["mode"] == "exhaustive"
+  first = hpstub.HPStub(script=[], fallback="first" if exhaustive else "default")
+  leaf(first)
+  names = [s[0] for s in first.shape()]
+  radices = [s[1] for s in first.shape()]
+  total = hpstub.count_product(radices)
+  cap = 4 * LEAF_CAP[ctx.tier]
+  done, complete, n_pairwise = 1, True, None
+  if state["early_abort"]:
+    complete = False
+    ctx.count("hp.scenarios_aborted_at_first_leaf")
+  elif exhaustive:
+    if total > cap:
+      complete = False
+      ctx.count("hp.exhaustive_cap_exceeded")
+    mismatch = False
+    for leaf_no, script in hpstub.product_scripts(radices, shard, nshards, limit=cap):
+      if leaf_no == 0:
+        continue                      # the discovery run was this leaf
+      stub = hpstub.HPStub(script=script, fallback="first")
+      leaf(stub)
+      done += 1
+      if not state["early_abort"] and not hpstub.shape_matches(stub, names, radices):
+        mismatch = True
+        break
+    if mismatch:
+      # the decision points depend on earlier answers: enumerate the tree itself
+      ctx.observe("hp_space_is_a_tree_not_a_product", {"sid": scn["sid"]})
+      if shard == 0:
+        n = 0
+        for stub, _ in hpstub.dfs(lambda s: leaf(s), max_leaves=cap):
+          n += 1
+        total, done = n, n
+        complete = bool(getattr(stub, "last_leaf", False))
+      else:
+        complete = False
+  else:
+    rnd = random.Random(case["seed"] * 1009 + zlib.crc32(scn["sid"].encode()))
+    rows, n_pairwise, full = hpstub.pairwise_rows([(d.name, d.values) for d in first.branch_points()], rnd,
+                                                  extra_random=scn["extra_random"], max_rows=scn["max_pairwise"])
+    for row in rows[shard::nshards]:
+      leaf(hpstub.HPStub(by_name=row, fallback="default"))
+      done += 1
+    complete = False
+    if shard == 0:
+      ctx.count("hp.pairwise_rows", n_pairwise)
+      if not full:
+        ctx.observe("pairwise_cover_truncated_by_row_cap", {"sid": scn["sid"], "rows": n_pairwise})
+
+  # ---- build(): trial size, bonus and the adjusted score, on one assignment per scenario
+  if shard == 0 and not state["early_abort"]:
+    by = {d.name: d.value for d in first.decisions()}
+    for k in list(by):
+      if k.startswith("network_filters"):
+        by[k] = 1.0
+    stub = hpstub.HPStub(by_name=by, fallback="default")
+    res = leaf(stub, build=True)
+    if res is not None:
+      q, hm = res
+      ctx.count("hp.build_checked")
+      ok, sz = ctx.call({"part": "size", "stage": "compute_model_size", "model": "built"}, ff.compute_model_size, q)
+      if ok and (hm.trial_size != sz[0] or ff.trial_size != sz[0]):
+        ctx.violation({"part": "delta", "kind": "trial_size_not_the_size_of_the_built_model"},
+                      "hyper-model trial_size %r, size model of the built model %r" % (hm.trial_size, sz[0]), None)
+      dexp = expected_delta(ffp["delta_p"], ffp["delta_n"], ffp["rate"], hm.reference_size, hm.trial_size)
+      k = int(q.output_shape[-1])
+      rng = np.random.default_rng(case["seed"] * 31 + case["idx"])
+      yt = np.eye(k, dtype=np.float32)[rng.integers(0, k, size=12)]
+      yp = rng.random((12, k)).astype(np.float32)
+      yp /= yp.sum(axis=1, keepdims=True)
+      ok, s = ctx.call({"part": "delta", "stage": "score"}, lambda: np.asarray(hm.score(tf.constant(yt), tf.constant(yp))))
+      if ok:
+        ctx.count("hp.score_checked")
+        ctx.evals(12)
+        acc = (yt.argmax(1) == yp.argmax(1)).astype(np.float64)
+        want = acc * (1.0 + dexp)
+        if s.shape != want.shape or np.abs(s - want).max() > 1e-5 * max(1.0, abs(1.0 + dexp)):
+          ctx.violation({"part": "delta", "kind": "score_not_metric_times_one_plus_delta"},
+                        "score %r, accuracy x (1 + %r) = %r (reference %r, trial %r)" % (
+                            s.tolist()[:4], dexp, want.tolist()[:4], hm.reference_size, hm.trial_size),
+                        {"ff": ffp})
+  if _js(ref.get_config()) != ref_cfg_before:
+    ctx.observe("reference_model_configuration_changed_by_the_hyper_model", {"sid": scn["sid"]})
+
+  if shard == 0:
+    ctx.count("hp.scenarios")
+    ctx.count("hp.scenarios_exhaustive" if (exhaustive and complete) else "hp.scenarios_sampled_or_cut")
+    if not exhaustive:
+      ctx.count("hp.scenarios_sampled")
+    ctx.count("hp.decision_points", len(first.decisions()))
+    summary = {"scenario": scn["sid"], "model": [(l["cls"], l["name"]) for l in scn["model"]["layers"]],
+               "limit": scn["limit"], "quantization_config": cfg_kind if cfg_kind == "library_default" else scn["cfg"],
+               "tune_filters": scn["tune"], "tune_filters_exceptions": scn["exc"], "layer_indexes": scn["layer_indexes"],
+               "decision_points": ["%s:%d" % (d.name, len(d.values)) for d in first.decisions()],
+               "space_leaves": total, "leaves_run_all_shards": (total if (exhaustive and complete) else None),
+               "exhaustive": bool(exhaustive and complete), "shards": nshards,
+               "pairwise_rows": n_pairwise, "random_rows": (None if exhaustive else scn["extra_random"])}
+    ctx.seen("hp.scenarios", _js(summary))
+    ctx.sample(summary)
+
+
+# ----------------------------------------------------------------------------- delta grid
+def run_delta(case, ctx):
+  import numpy as np
+  from qkeras.autoqkeras.forgiving_metrics import forgiving_factor
+  rnd = random.Random(case["seed"] * 65537 + case["chunk"])
+  grid = []
+  for dp in (0.5, 1.0, 8.0, 25.0):
+    for dn in (0.5, 2.0, 8.0, 40.0):
+      for rate in (1.1, 1.5, 2.0, 4.0, 10.0):
+        for ref in (1, 7, 528, 100003, 2 ** 31 + 11, 10 ** 12):
+          grid.append((dp, dn, rate, ref))
+  grid = grid[case["chunk"]::case["nchunks"]]
+  for dp, dn, rate, ref in grid:
+    base = {"part": "delta"}
+    ok, ff = ctx.call(base, lambda: forgiving_factor["bits"](delta_p=dp, delta_n=dn, rate=rate))
+    if not ok:
+      return
+    ts = {ref, ref + 1, ref * 2, int(ref * rate) + 1, ref * 1000, rnd.randint(ref + 1, 3 * ref + 5)}
+    if ref > 1:
+      ts |= {ref - 1, max(1, ref // 2), max(1, int(ref / rate)), max(1, ref // 1000), rnd.randint(1, ref - 1)}
+    ts = sorted(ts)
+    vals = []
+    for t in ts:
+      ff.reference_size, ff.trial_size = ref, t
+      ok, d = ctx.call(base, ff.delta)
+      if not ok:
+        return
+      d = float(d)
+      vals.append(d)
+      ctx.count("delta.points")
+      ctx.evals(3)
+      ctx.nontrivial("delta", dp, dn, rate, ref, t)
+      wit = {"delta_p": dp, "delta_n": dn, "rate": rate, "reference_size": ref, "trial_size": t, "delta": d}
+      if t == ref and d != 0.0:
+        ctx.violation({"part": "delta", "kind": "delta_contract", "which": "zero_at_equal_sizes", "route": "scalar"},
+                      "delta(ref=%r, trial=%r) = %r" % (ref, t, d), wit)
+      if (t < ref and not d > 0) or (t > ref and not d < 0):
+        ctx.violation({"part": "delta", "kind": "delta_contract", "which": "sign", "route": "scalar"},
+                      "delta(ref=%r, trial=%r) = %r" % (ref, t, d), wit)
+      e = expected_delta(dp, dn, rate, ref, t)
+      if abs(d - e) > 1e-6 * abs(e) + 1e-15:
+        ctx.violation({"part": "delta", "kind": "delta_contract", "which": "documented_calibration", "route": "scalar",
+                       "side": "smaller" if t < ref else "larger"},
+                      "delta(ref=%r, trial=%r) = %r, documented %r%% per %r-fold -> %r" % (
+                          ref, t, d, dp if t < ref else dn, rate, e), wit)
+      if abs(t - ref) == 1 and ref >= 100003 and abs(d) > 1e-3:
+        ctx.violation({"part": "delta", "kind": "delta_contract", "which": "continuity_at_equality", "route": "scalar"},
+                      "delta(ref=%r, trial=%r) = %r" % (ref, t, d), wit)
+    for i in range(len(ts) - 1):
+      ctx.count("delta.monotone_pairs")
+      if not vals[i] > vals[i + 1]:
+        ctx.violation({"part": "delta", "kind": "delta_contract", "which": "strictly_decreasing", "route": "scalar"},
+                      "trial %r -> %r but delta %r -> %r (ref %r)" % (ts[i], ts[i + 1], vals[i], vals[i + 1], ref),
+                      {"delta_p": dp, "delta_n": dn, "rate": rate, "reference_size": ref})
+    # array form (np.where suggests it is supported): same values element-wise
+    ff.reference_size, ff.trial_size = ref, np.asarray(ts, dtype=np.float64)
+    ok, arr = ctx.call(dict(base, route="array"), ff.delta)
+    if ok:
+      ctx.count("delta.array_calls")
+      arr = np.asarray(arr, dtype=np.float64)
+      if arr.shape != (len(ts),) or np.abs(arr - np.asarray(vals)).max() > 1e-9 * max(1.0, np.abs(arr).max()):
+        ctx.violation({"part": "delta", "kind": "delta_contract", "which": "array_form_differs_from_scalar", "route": "array"},
+                      "scalar %r, array %r" % (vals[:4], arr.tolist()[:4]), None)
+  ctx.sample({"part": "delta", "example": {"delta_p": dp, "delta_n": dn, "rate": rate, "reference_size": ref,
+                                            "trial_sizes": ts, "delta": vals}})
+
+
+def run_case(case, ctx):
+  if case["part"] == "hp":
+    run_hp(case, ctx)
+  else:
+    run_delta(case, ctx)
